@@ -57,6 +57,8 @@ var specs = []Spec{
 	{"x/perpetual/keeper", "Keeper.CheckAndLiquidateUnhealthyPosition", "perpLiquidateGuards", false, true, "if mtp.MtpHealth.LTE(safetyFactor)"},
 	{"x/stablestake/keeper", "msgServer.Bond", "bondShares", false, true, "shareCoins :="},
 	{"x/stablestake/keeper", "msgServer.Unbond", "unbondAmount", false, true, "depositDenom :="},
+	{"x/tradeshield/keeper", "msgServer.CancelSpotOrders", "cancelSpotBatchBody", false, true, ""},
+	{"x/tradeshield/keeper", "msgServer.CancelPerpetualOrders", "cancelPerpBatchBody", false, true, ""},
 	{"x/perpetual/keeper", "Keeper.ProcessOpen", "perpOpenHealthGuards", false, true, "stopLossPrice :="},
 	{"x/perpetual/keeper", "Keeper.OpenConsolidate", "perpConsolidateHealthGuards", false, true, "stopLossPrice :="},
 	{"x/leveragelp/keeper", "Keeper.ProcessOpenLong", "lpOpenHealthGuards", false, true, "position.LeveragedLpAmount ="},
@@ -87,7 +89,9 @@ var guardIf = map[string]bool{
 // iteration, for an arbitrary element: the range variables are opaque); windowResult: the definition returns this local variable (an
 // integer) instead of `true`
 var loopBody = map[string]bool{
-	"accountedAmount": true,
+	"accountedAmount":     true,
+	"cancelSpotBatchBody": true,
+	"cancelPerpBatchBody": true,
 }
 
 var windowResult = map[string]string{
